@@ -187,7 +187,8 @@ class DefaultDeploymentManager(DeploymentManager):
             self.dependency_graph[deployment_name].discard(deployment_name)
             # If there are no more inner deployments, undeploy the environment and clear the related data structures
             if len(self.dependency_graph[deployment_name]) == 0:
-                self.events_map[deployment_name].clear()
+                event = self.events_map[deployment_name]
+                event.clear()
                 connector = self.deployments_map[deployment_name]
                 config = self.config_map[deployment_name]
                 if logger.isEnabledFor(logging.INFO):
@@ -200,7 +201,7 @@ class DefaultDeploymentManager(DeploymentManager):
                 if logger.isEnabledFor(logging.INFO):
                     if not config.external:
                         logger.info(f"COMPLETED undeployment of {deployment_name}")
-                self.events_map[deployment_name].set()
+                event.set()
                 # Remove the current environment from all the other dependency graphs
                 for name, deps in list(
                     (k, v)
